@@ -27,6 +27,14 @@ def build_harness(profile="debug"):
     os.makedirs(BUILD, exist_ok=True)
     env = dict(os.environ, CARGO_TARGET_DIR=TARGET, CARGO_NET_OFFLINE="true")
     cmd = ["cargo", "build", "--offline", "--quiet"] + (["--release"] if profile == "release" else [])
+    target = TARGET
+    if os.environ.get("VERIF_COVERAGE"):
+        # source-based coverage of /repo/src under the check's cases (tools/coverage.py; not used by the registered commands)
+        target = TARGET + "_cov"
+        env = dict(env, CARGO_TARGET_DIR=target, RUSTFLAGS="-C instrument-coverage")
+        cmd = ["cargo", "+nightly"] + cmd[1:]
+        os.makedirs(os.path.join(BUILD, "cov"), exist_ok=True)
+        os.environ["LLVM_PROFILE_FILE"] = os.path.join(BUILD, "cov", "%p-%m.profraw")
     hdir = os.path.join(ROOT, "harness")
     if REPO != "/repo":
         # scratch copy of the executor crate pointing at the alternative checkout
@@ -38,7 +46,7 @@ def build_harness(profile="debug"):
     r = subprocess.run(cmd, cwd=hdir, env=env, stdout=subprocess.PIPE, stderr=subprocess.STDOUT, text=True)
     if r.returncode != 0:
         raise BuildError("cargo build failed against /repo's tree:\n" + r.stdout[-4000:])
-    p = os.path.join(TARGET, profile, "verif_harness")
+    p = os.path.join(target, profile, "verif_harness")
     _built[profile] = p
     return p
 
